@@ -721,10 +721,11 @@ def gen_D(rng, adversarial=False):
     ncols = len(lines) + 2 + rng.choice([0, 0, 1, 3])
     nfiles = rng.randint(1, 4)
     files = []
+    frac_w = rng.random() < 0.5      # importance-sampled / post-processed chains carry non-integer weights
     for f in range(nfiles):
         rows = []
         for _ in range(rng.randint(1, 15)):
-            row = [float(rng.randint(1, 9)), rng.uniform(1000, 3000)] + [rng.gauss(0, 1) * 10 ** rng.randint(-2, 2)
+            row = [(rng.uniform(0.05, 9.0) if frac_w else float(rng.randint(1, 9))), rng.uniform(1000, 3000)] + [rng.gauss(0, 1) * 10 ** rng.randint(-2, 2)
                                                                       for _ in range(ncols - 2)]
             fmt = rng.choice(FMT)
             rows.append([fmt % x for x in row])
